@@ -195,7 +195,7 @@ def handler(i, fn, reg, specs):
     names = []
     for p, t in fn_params(fn):
         if isinstance(resolve(t), TFun):
-            term = getattr(specs, "DRIVER_CALLS", {}).get((fn.cls, p))
+            term = getattr(specs, "DRIVER_CALLS", {}).get((fn.cls, p)) or getattr(specs, "DRIVER_CALLS", {}).get((None, p))
             if term is None:
                 raise NoDriver("no driver term for the abstract call " + p)
             names.append(term)
